@@ -5,9 +5,15 @@
    (the `_refuted` theorems); and what each front end hands on as a path name is either refused by
    IsValidPathName or is a well-formed name. What is NOT proved (third-party stacks, Go run time) is
    exercised by the crash-oracle runs of the check and is labelled testing in the evidence.
-   Only statements here; every proof is `exact <lemma of Proofs/C35_PreAuth.v>`. *)
+   Second part (Model/C35_SessionConc.v): the MoQ session under CONCURRENT streams of one unauthenticated client
+   (every stream has its own goroutine; a panic in any of them ends the process): no schedule of any pool of stream
+   handlers, API calls and Close() reaches "close of closed channel", an out-of-range index, a fatal unlock or an
+   access to a mutex-guarded field without the mutex; the mutex holder is never blocked; the statement orders next to
+   the code (duplicate-SETUP test before the lock, ...) do panic under a concrete schedule.
+   Only statements here; every proof is `exact <lemma of Proofs/C35_*.v>`. *)
 From Coq Require Import List ZArith Bool String.
 Require Import MTX.Lib.PathClean MTX.Model.C34_Descriptors MTX.Model.C35_PreAuth MTX.Proofs.C35_PreAuth.
+Require Import MTX.Model.C35_SessionConc MTX.Proofs.C35_SessionConc MTX.Proofs.C35_SessionRun.
 Import ListNotations.
 Local Open Scope Z_scope.
 
@@ -215,3 +221,107 @@ Example C35_examples :
   /\ srt_unmarshal (S "#!::r=cam,m=publish") = Ok (SidOk (mkSid MPublish (S "cam") [] [] []))
   /\ gate (S "cam/1") = Ok true /\ gate [] = Ok false /\ gate (S "a/../b") = Ok false.
 Proof. vm_compute. repeat split. Qed.
+
+(* ---- the MoQ session under concurrent streams (Model/C35_SessionConc.v) -------------------------------------------- *)
+
+Local Open Scope nat_scope.
+
+(* A session as server.go creates it (any transport, version, path-manager behaviour, initial name), any list of
+   concurrent streams / API calls / Close() calls, any schedule (which goroutine runs its next statement, which select
+   case fires, when bytes arrive, when the client closes a stream, when the context is cancelled, when another
+   goroutine holds the mutex): the run never reaches a panic ("close of closed channel" on setupReceived or
+   publishReady, setupTracks[n] out of range), a fatal "unlock of unlocked mutex", or an unprotected access; it stays
+   inside the invariant `Inv`. *)
+Theorem C35_session_no_panic : forall c name query ss ls,
+  exists g ts, run c (init c AsFound name query ss) ls = RRun g ts /\ Inv g ts.
+Proof. exact session_no_panic. Qed.
+Print Assumptions C35_session_no_panic.
+
+(* the same for ANY pool of programs that satisfies the discipline (`wf`: guarded fields only under the mutex;
+   close(setupReceived) only after having seen it open under the same critical section; state written only in the
+   section that saw it idle; close(publishReady) / s.stream only by the goroutine that moved the state; an index only
+   after having seen it in range; nothing that waits for the client while the mutex is held) *)
+Theorem C35_session_discipline_sound : forall c g ts ls,
+  Inv g ts -> exists g' ts', run c (RRun g ts) ls = RRun g' ts' /\ Inv g' ts'.
+Proof. exact discipline_sound. Qed.
+Print Assumptions C35_session_discipline_sound.
+
+Theorem C35_session_handlers_well_formed : forall c s,
+  wf false abs0 (prog c AsFound s) = true /\ (forall alt, alt_of c AsFound s = Some alt -> wf false abs0 alt = true).
+Proof. intros c s. split. exact (prog_wf c s). exact (alt_wf c s). Qed.
+Print Assumptions C35_session_handlers_well_formed.
+
+(* whoever holds s.mutex can run its next statement at once: a client cannot park a goroutine inside a critical
+   section (apiItem, and with it the API's session list, would hang) *)
+Theorem C35_session_holder_not_blocked : forall c g ts i,
+  Inv g ts -> g_lock g = LThread i ->
+  exists t, nth_error ts i = Some t /\ forall ch, exists g' t', step c g i t ch = XOk g' t'.
+Proof. exact holder_not_blocked. Qed.
+Print Assumptions C35_session_holder_not_blocked.
+
+Theorem C35_session_finished_released : forall g ts i t,
+  Inv g ts -> nth_error ts i = Some t -> t_res t <> None -> t_holds t = false /\ g_lock g <> LThread i.
+Proof. exact finished_released. Qed.
+Print Assumptions C35_session_finished_released.
+
+(* the path name is written once: no later SETUP / CLIENT_SETUP changes what the path manager is asked about *)
+Theorem C35_session_name_write_once : forall c ls g ts g' ts',
+  run c (RRun g ts) ls = RRun g' ts' -> g_name g <> [] -> g_name g' = g_name g /\ g_query g' = g_query g.
+Proof. exact name_write_once. Qed.
+Print Assumptions C35_session_name_write_once.
+
+(* the duplicate-SETUP test hoisted before s.mutex.Lock(): two SETUP streams of one client, both past the test before
+   either closes the channel; sequentially the same program rejects the duplicate exactly like the code as found *)
+Theorem C35_session_check_then_lock_refuted :
+  (exists c name query ss ls i, run c (init c CheckThenLock name query ss) ls = RPanic i)
+  /\ (exists c s, wf false abs0 (prog c CheckThenLock s) = false).
+Proof.
+  split.
+  - exists cWT, [99%Z], [], two_setups, sched_raced_setups, 1. exact check_then_lock_panics.
+  - exists cWT, (UniMsg (QSetup sm0)). exact check_then_lock_ill_formed.
+Qed.
+Print Assumptions C35_session_check_then_lock_refuted.
+
+Theorem C35_session_check_then_lock_sequentially_silent :
+  (match run cWT (init cWT CheckThenLock [99%Z] [] two_setups) sched_sequential with
+   | RRun _ ts => map t_res ts | _ => [] end) = [Some ENil; Some EDupSetup]
+  /\ (match run cWT (init cWT AsFound [99%Z] [] two_setups) sched_sequential with
+      | RRun _ ts => map t_res ts | _ => [] end) = [Some ENil; Some EDupSetup].
+Proof. exact check_then_lock_sequential_ok. Qed.
+Print Assumptions C35_session_check_then_lock_sequentially_silent.
+
+(* the mutex released before the test; no mutex at all *)
+Theorem C35_session_unlock_then_check_refuted :
+  exists c name query ss ls i, run c (init c UnlockThenCheck name query ss) ls = RPanic i.
+Proof. exists cWT, [99%Z], [], two_setups, sched_unlock_then_check, 1. exact unlock_then_check_panics. Qed.
+Print Assumptions C35_session_unlock_then_check_refuted.
+
+Theorem C35_session_no_lock_refuted :
+  exists c name query ss ls i, run c (init c NoLock name query ss) ls = RUnprotected i.
+Proof. exists cWT, [99%Z], [], two_setups, sched_no_lock, 0. exact no_lock_unprotected. Qed.
+Print Assumptions C35_session_no_lock_refuted.
+
+(* `if s.state != idle` and `s.state = publish` in two critical sections: two PUBLISH .catalog requests close
+   publishReady twice (needs a path manager that lets the client publish, as the default configuration does) *)
+Theorem C35_session_split_publish_cas_refuted :
+  exists c name query ss ls i, run c (init c SplitPublishCAS name query ss) ls = RPanic i.
+Proof. exists cAcc, [99%Z], [], two_publishers, sched_two_publishers, 2. exact split_publish_cas_panics. Qed.
+Print Assumptions C35_session_split_publish_cas_refuted.
+
+(* `trackID > len(s.setupTracks)` *)
+Theorem C35_session_index_off_by_one_refuted :
+  exists c name query ss ls i, run c (init c IndexOffByOne name query ss) ls = RPanic i.
+Proof. exists cAcc, [99%Z], [], subscribe_track0, sched_subscribe_track0, 2. exact index_off_by_one_panics. Qed.
+Print Assumptions C35_session_index_off_by_one_refuted.
+
+(* non-vacuity: the same pools and schedules under the code as found *)
+Example C35_session_examples :
+  (match run cWT (init cWT AsFound [99%Z] [] two_setups) sched_raced_setups with
+   | RRun g ts => (g_setup g, map t_res ts) | _ => (false, []) end) = (true, [None; Some EDupSetup])
+  /\ (match run cAcc (init cAcc AsFound [99%Z] [] two_publishers) sched_two_publishers with
+      | RRun g ts => (g_ready g, map t_res ts) | _ => (false, []) end)
+     = (true, [Some ENil; None; Some EUnexpectedPublish; Some ENil; Some ENil])
+  /\ (match run cAcc (init cAcc AsFound [99%Z] [] subscribe_track0) sched_subscribe_track0 with
+      | RRun g ts => (g_tracks g, map t_res ts) | _ => (None, []) end)
+     = (Some 0, [Some ENil; Some ESubCatalogClosed; Some ETrackRange]).
+Proof. exact as_found_examples. Qed.
